@@ -525,6 +525,63 @@ fn large_batch_family(run: &Run, thorough: bool) {
     }
 }
 
+/// Free-running repetitions (SAMPLING of thread schedules, labelled so in the evidence): transactions whose inputs share an
+/// index-sensitive covenant are validated 40 times on pools of 2, 4, 8 and 16 threads; every run must give the 1-thread verdict.
+/// Interleavings inside one transaction's validation cannot be enumerated with the tools available (DESIGN.md §5).
+fn repeatability_sampling(run: &Run, thorough: bool) {
+    let w = world_mel(NetID::Custom02, 10_000_000, 0);
+    let g = w.genesis.clone().seal(None);
+    let mut u = g.next_unsealed();
+    let newsig = cov_new(1);
+    let idx0 = Covenant::from_ops(&[OpCode::LoadImm(9), OpCode::PushI(0u8.into()), OpCode::Eql]);
+    let n = 16usize;
+    let mut outs: Vec<melstructs::CoinData> = (0..n).map(|i| out(newsig.hash(), 1000 + i as u128, Denom::Mel)).collect();
+    outs.extend((0..n).map(|i| out(idx0.hash(), 2000 + i as u128, Denom::Mel)));
+    let total: u128 = outs.iter().map(|o| o.value.0).sum();
+    outs.push(out_t(10_000_000 - total, Denom::Mel));
+    let fund = tx_t(TxKind::Normal, vec![melstructs::CoinID::zero_zero()], outs, 0, vec![]);
+    if u.apply_tx(&fund).is_err() {
+        run.outcome("sampling:funding-rejected");
+        return;
+    }
+    let s1 = u.seal(None);
+    let st = s1.next_unsealed();
+    // (a) 16 inputs under the new-style signature covenant, one signature in slot 0; (b) 16 inputs under `spender index == 0`
+    let sum_a: u128 = (0..n).map(|i| 1000 + i as u128).sum();
+    let mut a = mktx(TxKind::Normal, (0..n).map(|i| fund.output_coinid(i as u8)).collect(), vec![out_t(sum_a, Denom::Mel)], 0, vec![newsig.to_bytes()], vec![]);
+    a.sigs = vec![key(1).1.sign(&a.hash_nosigs().0).into()];
+    let sum_b: u128 = (0..n).map(|i| 2000 + i as u128).sum();
+    let b = mktx(TxKind::Normal, (0..n).map(|i| fund.output_coinid((n + i) as u8)).collect(), vec![out_t(sum_b, Denom::Mel)], 0, vec![idx0.to_bytes()], vec![]);
+    let reps = if thorough { 200 } else { 40 };
+    for (name, tx) in [("16 inputs, new-style signature covenant, one signature", a), ("16 inputs, covenant `spender index == 0`", b)] {
+        let one = rayon::ThreadPoolBuilder::new().num_threads(1).build().unwrap();
+        let reference = one.install(|| apply_as_batch(&st, std::slice::from_ref(&tx)));
+        for threads in [2usize, 4, 8, 16] {
+            let pool = rayon::ThreadPoolBuilder::new().num_threads(threads).build().unwrap();
+            let mut deviating = 0;
+            for _ in 0..reps {
+                run.transition();
+                let o = pool.install(|| apply_as_batch(&st, std::slice::from_ref(&tx)));
+                run.validated();
+                if o != reference {
+                    deviating += 1;
+                }
+            }
+            run.outcome(&format!("sampling:{}-threads:{}", threads, if deviating == 0 { "all-equal" } else { "deviating" }));
+            if deviating > 0 {
+                run.violation(
+                    "C03",
+                    format!("verdict-depends-on-schedule/{}", diff_fields(&reference, &Outcome::Rejected).split(',').next().unwrap_or("acceptance")),
+                    format!("{}: {} of {} runs on a {}-thread pool differ from the 1-thread result", name, deviating, reps, threads),
+                    json!({"tx": tx_json(&tx), "threads": threads, "repetitions": reps}),
+                );
+                break;
+            }
+        }
+    }
+    run.set("schedule_sampling", json!({"what": "free-running repetitions of multi-input validations on 2/4/8/16-thread pools", "repetitions_per_pool": reps, "label": "sampling, not exhaustive"}));
+}
+
 pub fn run(run: &Run) {
     let thorough = run.thorough();
     let max_set = if thorough { 4 } else { 3 };
@@ -568,6 +625,7 @@ pub fn run(run: &Run) {
     genesis_block_corner(run, &pools);
     doscmint_corner(run, &pools);
     large_batch_family(run, thorough);
+    repeatability_sampling(run, thorough);
     run.set("sets_checked", json!(total_sets));
     run.set("max_set_size_completed", json!(max_set));
     run.set("rayon_pool_sizes", json!(pool_sizes));
